@@ -168,6 +168,10 @@ def features(history):
                 f.add('same-cell-twice-in-batch')
     if any(len(set(v)) >= 2 for v in writes.values()):
         f.add('rewritten-with-different-value')
+    for k, vs in writes.items():
+        seq = [json.dumps(wb['cells'].get(k))] + vs
+        if any({a, b} in ({'1', 'true'}, {'0', 'false'}) for a, b in zip(seq, seq[1:])):
+            f.add('rewritten-with-equal-value-of-other-type')
     if any(len(v) >= 3 for v in writes.values()):
         f.add('written-3+-times')
     return f
@@ -225,7 +229,7 @@ def build_machine(rec, histories_out):
             ncons = data.draw(st.integers(2, 8))
             for _ in range(ncons):
                 c, r = data.draw(st.integers(1, 3)), data.draw(st.integers(1, 3))
-                cells[f'0:{c}:{r}'] = data.draw(st.integers(1, 9))
+                cells[f'0:{c}:{r}'] = data.draw(st.one_of(st.integers(1, 9), st.integers(0, 2)))
             if two:
                 for _ in range(data.draw(st.integers(1, 4))):
                     cells[f'1:{data.draw(st.integers(1, 2))}:{data.draw(st.integers(1, 2))}'] = data.draw(st.integers(10, 19))
@@ -267,7 +271,15 @@ def build_machine(rec, histories_out):
                     k = batch[-1][0]  # the same cell twice in one batch
                 else:
                     k = self._target(data)
-                batch.append([k, data.draw(value), data.draw(addressing)])
+                v = data.draw(value)
+                # a value that equals the one the cell holds now but has another type (1 <-> TRUE, 0 <-> FALSE): SUM / COUNT
+                # over the cell must follow the type
+                last = [vv for s_ in self.history['steps'] if s_['op'] == 'set' for (kk, vv, _) in s_['batch'] if kk == k] + \
+                       [vv for (kk, vv, _) in batch if kk == k]
+                now = last[-1] if last else self.history['wb']['cells'].get(k)
+                if isinstance(now, (bool, int)) and now in (0, 1) and data.draw(st.integers(0, 1)) == 0:
+                    v = int(now) if isinstance(now, bool) else bool(now)
+                batch.append([k, v, data.draw(addressing)])
             self.history['steps'].append({'op': 'set', 'batch': batch})
 
         @precondition(lambda self: self.history is not None and any(s['op'] == 'set' for s in self.history['steps'])
